@@ -462,7 +462,10 @@ class Site(interfaces.ObservableResource, PathCapable):
             if hasattr(resource, "get_resources_as_linkheader"):
                 for link in resource.get_resources_as_linkheader().links:
                     links.append(
-                        Link("/" + "/".join(path) + link.href, link.attr_pairs)
+                        Link(
+                            "".join("/" + p for p in path) + link.href,
+                            link.attr_pairs,
+                        )
                     )
         return LinkFormat(links)
 
